@@ -51,6 +51,7 @@ CONSTANTS M,            \* sequence-number modulus
           Eagers,       \* subset of BOOLEAN: the receiver calls Pop until nil after every Push (the usual way to use it)
           Holds,        \* (sampling) stream positions of a straggler, 0 = none: that packet is kept back in the network
           HoldFors,     \* (sampling) ... until so many later packets have been delivered
+          Situations,   \* TRUE: arrivals carry the situation they were pushed in (labels of failure classes); FALSE saves states
           Algo,         \* "none" | "abstract" | "ring"
           Impl,         \* "asis" | "fixAB" | "fixABC"
           Sampling      \* TRUE: every choice is one seeded random draw (for -simulate)
@@ -342,13 +343,14 @@ Emit(new) ==
 
 \* every arrival carries the situation in which it was pushed (the real driver numbers the arrivals in
 \* the payload, so a sample names the very pushes it was built from)
-Arrival(i) == [pkts[i] EXCEPT !.sit = PushSituation(pkts, since \ AllTags(emitted), i, poppedSince, M)
+Arrival(i) == IF ~Situations THEN pkts[i] ELSE
+              [pkts[i] EXCEPT !.sit = PushSituation(pkts, since \ AllTags(emitted), i, poppedSince, M)
                                       \o (IF nflush > 0 THEN "/after-a-flush" ELSE "/no-flush-yet")]
 \* Push of packet i; an eager receiver pops until nil right after it
 PushStep(i) ==
   /\ pushed' = pushed \cup {i}
-  /\ since' = since \cup {i}
-  /\ poppedSince' = (poppedSince \/ par.eager)
+  /\ since' = IF Situations THEN since \cup {i} ELSE since
+  /\ poppedSince' = (Situations /\ (poppedSince \/ par.eager))
   /\ IF par.eager
      THEN /\ script' = Append(Append(script, i - 1), -1)
           /\ IF Algo = "ring"
@@ -393,7 +395,7 @@ PopOne ==
             /\ \/ Emit(<<>>)                                                \* Pop may return nil
                \/ \E r \in LegalRuns : Emit(<<[tags |-> RunTags(r), sit |-> "abstract"]>>)
        [] OTHER -> UNCHANGED <<sb, emitted, bad>>
-  /\ poppedSince' = (poppedSince \/ since # {})
+  /\ poppedSince' = (Situations /\ (poppedSince \/ since # {}))
   /\ UNCHANGED <<phase, par, frames, pkts, pending, nextIdx, sent, nloss, ndup, nflush, pushed, premOK, since>>
 
 PopAll ==
@@ -409,7 +411,7 @@ PopAll ==
                \/ \E r \in LegalRuns : Emit(<<[tags |-> RunTags(r), sit |-> "abstract"]>>)
        [] OTHER -> UNCHANGED <<sb, emitted, bad>>
   /\ phase' = IF phase = "drain" /\ (Algo # "abstract" \/ emitted' = emitted) THEN "done" ELSE phase
-  /\ poppedSince' = (poppedSince \/ since # {})
+  /\ poppedSince' = (Situations /\ (poppedSince \/ since # {}))
   /\ UNCHANGED <<par, frames, pkts, pending, nextIdx, sent, nloss, ndup, nflush, pushed, premOK, since>>
 
 Flush ==
